@@ -17,11 +17,12 @@ class Violation(object):
              key used for "collect, then shrink" and for known findings.
     detail : human readable explanation (not part of the bucket).
     """
-    __slots__ = ("clause", "detail")
+    __slots__ = ("clause", "detail", "info")
 
-    def __init__(self, clause, detail=""):
+    def __init__(self, clause, detail="", info=None):
         self.clause = clause
         self.detail = detail
+        self.info = info or {}     # structured facts for known-finding predicates
 
     def to_json(self):
         return {"clause": self.clause, "detail": self.detail}
@@ -40,8 +41,8 @@ class CaseResult(object):
         self.nontrivial = False
         self.evals = 1      # number of executions of behave this case stands for
 
-    def fail(self, clause, detail=""):
-        self.violations.append(Violation(clause, detail))
+    def fail(self, clause, detail="", **info):
+        self.violations.append(Violation(clause, detail, info))
 
     def label(self, *names):
         self.labels.extend(names)
